@@ -13,6 +13,9 @@ Monitors (all on the live forml code, oracle = identity / own PEP 440 implementa
              evaluation marker - equal the ones of the source tree, loaded from the installed location
   keys     : ``Release.Key`` accepts exactly PEP 440 versions, orders / equates / hashes like PEP 440; ``Generation.Key``
              accepts naturals >= 1, orders as int, ``next`` is +1; clearly invalid keys are rejected
+  commit   : on a release whose generations sit under arbitrary keys (gaps, not starting at one) one more generation committed the
+             runner's way (``Release.dump`` + ``Release.put`` / ``State.commit``) gets the key max+1, a fresh reader lists the old
+             keys plus that one, "latest" resolves to it, its tag and states read back as written, every older tag is unchanged
   listing  : ``Level.Listing`` of random key multisets and the listings of all three levels of real posix and volatile
              registries (random push / close order, equal-version directories, invalidly named noise directories) are
              strictly increasing, hold exactly the valid keys, and the implicit ("latest") key is the maximum
@@ -80,11 +83,13 @@ def floors(tier):
             'tag_checked': 3000, 'tag_registry_checked': 150, 'manifest_checked': 500, 'package_checked': 80, 'components_checked': 80,
             'release_key_checked': 2000, 'release_invalid_rejected': 300, 'generation_key_checked': 1500, 'generation_invalid_rejected': 40,
             'listing_checked': 400, 'registry_listing_checked': 40, 'volatile_listing_checked': 16, 'directed_checked': 40,
+            'commit_checked': 60, 'commit_gapped_checked': 30,
         }
     return {
         'tag_checked': 100000, 'tag_registry_checked': 8000, 'manifest_checked': 12000, 'package_checked': 1500, 'components_checked': 1500,
         'release_key_checked': 40000, 'release_invalid_rejected': 8000, 'generation_key_checked': 40000, 'generation_invalid_rejected': 40,
         'listing_checked': 30000, 'registry_listing_checked': 800, 'volatile_listing_checked': 300, 'directed_checked': 40,
+        'commit_checked': 700, 'commit_gapped_checked': 350,
     }
 
 
@@ -790,6 +795,134 @@ def check_registry_listing(ctx, env, case):
         env.drop(root)
 
 
+def check_commit(ctx, env, case, directed=False):
+    """A release already holding generations under arbitrary keys (gaps, not starting at one - old generations pruned) gets one more
+    generation through the lifecycle path.  case: {'volatile': bool, 'numbers': [existing keys in close order], 'via': 'put'|'state',
+    'tag': tag case (its states only give the number of states)}"""
+    import datetime
+    import sys
+
+    from vlib import projgen
+
+    asset, project, o = env.asset, env.project, env.o
+    ctx.count('evaluations')
+    ctx.count('commit_checked')
+    existing = sorted(set(case['numbers']))
+    gapped = bool(existing) and existing != list(range(1, len(existing) + 1))
+    if gapped:
+        ctx.count('commit_gapped_checked')
+    ctx.shape(('commit', case))
+    witness = {'kind': 'commit', 'case': case}
+    successor = (existing[-1] + 1) if existing else 1
+    root = env.scratch()
+    syspath = list(sys.path)
+    try:
+        try:
+            registry = env.volatile.Registry() if case['volatile'] else env.posix.Registry(root / 'reg')
+            project.Manifest('commit', '1', 'nothing').write(root / 'pkg')
+            registry.push(project.Package(root / 'pkg'))
+            release = asset.Directory(registry).get('commit').get('1')
+            before = {}
+            for number in case['numbers']:
+                before[number] = asset.Tag(training=asset.Tag.Training(
+                    datetime.datetime(2020, 1, 1) + datetime.timedelta(seconds=number % 10**6, microseconds=len(before)), number))
+                registry.close(release.project.key, release.key, asset.Generation.Key(number), before[number])
+            # a long-lived process has read these tags before (and keeps them cached)
+            for number in existing:
+                if release.get(number).tag.training.ordinal != number:
+                    ctx.violation('commit-setup-tag-differs', f'generation {number} closed with ordinal {number} reads {release.get(number).tag}',
+                                  witness)
+                    return
+        except Exception as err:  # pylint: disable=broad-except
+            ctx.violation('registry-populate-raises', f'closing generations {case["numbers"]} raised {err!r}', witness)
+            return
+        # ---- the commit as the runner does it: dump the states, then put / State.commit
+        payloads = [b'payload-%d' % i for i in range(len(case['tag']['states']))]
+        try:
+            template = build_tag(env, dict(case['tag'], states=[]))
+            if case['via'] == 'put':
+                sids = [release.dump(p) for p in payloads]
+                written = template.replace(states=tuple(sids))
+                returned = release.put(written).key
+            else:
+                import uuid
+
+                nodes = [uuid.UUID(int=i + 1) for i in range(len(payloads))]
+                state = asset.Instance('commit', '1', None, asset.Directory(registry)).state(nodes, template)
+                sids = [state.dump(p) for p in payloads]
+                written = template.replace(states=tuple(sids))
+                state.commit(tuple(sids))
+                returned = None
+        except Exception as err:  # pylint: disable=broad-except
+            ctx.violation('commit-raises', f'committing a generation on top of {existing} raised {err!r}', witness)
+            return
+        if returned is not None and int(returned) != successor:
+            ctx.violation('commit-key-not-successor', f'Release.put on generations {existing} returned generation {returned}, the next natural '
+                                                      f'number after the maximum is {successor}', witness)
+            return
+        wanted = dict(case['tag'], states=[str(s) for s in sids])
+        try:
+            if returned is not None:  # the committing process itself reads the new generation back
+                fields = tag_diff(env, wanted, release.get(returned).tag)
+                if fields:
+                    ctx.violation('commit-tag-stale-in-process', f'generation {returned} just committed reads back with other {fields} in the '
+                                                                 f'committing process: {release.get(returned).tag}', witness)
+                    return
+            # ---- a fresh reader
+            projgen.clear_caches()
+            reader = asset.Directory(registry if case['volatile'] else env.posix.Registry(root / 'reg')).get('commit').get('1')
+            listing = reader.list()
+            problem = listing_problem(env, listing, existing + [successor], int)
+            if problem:
+                ctx.violation('commit-listing-' + problem.split(' (')[0], f'generations {existing} + one commit listed as {listing}: {problem}',
+                              witness)
+                return
+            latest = reader.get(None)
+            if int(latest.key) != successor:
+                ctx.violation('commit-latest-differs', f'latest of {listing} resolves to {latest.key}, committed {successor}', witness)
+                return
+            fields = tag_diff(env, wanted, latest.tag)
+            if fields:
+                ctx.violation('commit-tag-' + '-'.join(fields) + '-differs', f'committed {written}, latest generation reads {latest.tag}', witness)
+                return
+            if [latest.get(i) for i in range(len(payloads))] != payloads:
+                ctx.violation('commit-state-differs', f'states of the committed generation read back differently for {case}', witness)
+                return
+            for number in existing:
+                tag = reader.get(number).tag
+                if tag != before[number] or tag.training.ordinal != number:
+                    ctx.violation('commit-overwrites-existing-tag', f'generation {number} held {before[number]} before the commit and {tag} '
+                                                                    'after it', witness)
+                    return
+        except Exception as err:  # pylint: disable=broad-except
+            ctx.violation('commit-readback-raises', f'reading back after a commit on top of {existing} raised {err!r}', witness)
+            return
+        if directed:
+            ctx.count('directed_checked')
+    finally:
+        sys.path[:] = syspath
+        env.drop(root)
+
+
+def gen_commit(env, rng, volatile):
+    o = env.o
+    roll = rng.random()
+    if roll < 0.1:
+        numbers = []
+    elif roll < 0.25:
+        numbers = list(range(1, rng.randint(2, 6)))  # contiguous from one
+    elif roll < 0.5:
+        start = rng.randint(2, 40)
+        numbers = list(range(start, start + rng.randint(1, 5)))  # pruned head
+    else:
+        numbers = [o.gen_generation(rng) for _ in range(rng.randint(1, 8))]
+    rng.shuffle(numbers)
+    tag = o.gen_tag(rng, maxstates=4)
+    if tag['ordinal']['k'] in ('decimal', 'str'):  # the known findings about ordinals have their own monitor
+        tag['ordinal'] = o.enc(rng.randint(-5, 5))
+    return {'volatile': volatile, 'numbers': numbers, 'via': rng.choice(['put', 'put', 'state']), 'tag': tag}
+
+
 # ---------------------------------------------------------------------------------------------------- generators
 def gen_spec(env, rng, serial):
     o = env.o
@@ -891,6 +1024,12 @@ def directed(ctx, env):
         ctx.violation('key-default', f'default keys are {env.asset.Generation.Key()!r} / {env.asset.Release.Key()!r}', {'kind': 'defaults'})
     for kind in ('release', 'generation', 'project'):
         check_listing(ctx, env, kind, [])
+    plain = {'training': o.enc(stamp), 'ordinal': o.enc(5), 'tuning': o.enc(None), 'score': o.enc(None), 'states': ['x', 'y']}
+    for volatile in (False, True):
+        for via in ('put', 'state'):
+            check_commit(ctx, env, {'volatile': volatile, 'numbers': [3, 4], 'via': via, 'tag': plain}, directed=True)
+    check_commit(ctx, env, {'volatile': False, 'numbers': [], 'via': 'put', 'tag': plain}, directed=True)
+    check_commit(ctx, env, {'volatile': False, 'numbers': [7, 2, 2, 10**20], 'via': 'put', 'tag': plain}, directed=True)
 
 
 # ---------------------------------------------------------------------------------------------------- entry points
@@ -945,6 +1084,12 @@ def workload(ctx, env):
             ctx.sample({'registry': layout})
     for _ in range(ctx.pick(6, 30)):
         check_registry_listing(ctx, env, gen_layout(env, rng, volatile=True))
+    # ---- one more generation committed on top of arbitrary existing keys
+    for index in range(ctx.pick(20, 80)):
+        case = gen_commit(env, rng, volatile=index % 3 == 2)
+        check_commit(ctx, env, case)
+        if index == 0 and ctx.shard % 2 == 1:
+            ctx.sample({'commit': case})
 
 
 def replay(ctx, witness):
@@ -973,6 +1118,8 @@ def replay(ctx, witness):
             check_listing(ctx, env, witness['level'], witness['items'])
         elif kind == 'registry-listing':
             check_registry_listing(ctx, env, witness['case'])
+        elif kind == 'commit':
+            check_commit(ctx, env, witness['case'])
         elif kind == 'defaults':
             if int(env.asset.Generation.Key()) != 1 or str(env.asset.Release.Key()) != '0':
                 ctx.violation('key-default', 'default keys differ', witness)
